@@ -162,7 +162,9 @@ GEN_ONLY = ('ifexp-in-filter', 'ifexp-in-element-of-filtered-generator', 'and-or
 def signature(kind, feats):
     if not feats:
         return 'C03:%s:no-known-feature' % kind
-    return 'C03:%s:%s' % ('gen' if feats[0] in GEN_ONLY else 'ifexp', feats[0])
+    if feats[0] in GEN_ONLY:
+        return 'C03:gen:' + feats[0]
+    return 'C03:ifexp:' + (feats[0][6:] if feats[0].startswith('ifexp-') else feats[0])
 
 
 # -- evaluation of ast objects ------------------------------------------------------------------------------------------------
